@@ -183,8 +183,12 @@ func (s *Fn) callFacts(c *ssa.Call, ret func(i int) Lin, res int) (out []Lin) {
 		if n != "strings.ToLower" {
 			add(le(r, s.lenOf(a[0])))
 		}
-	case "bytes.Cut":
+	case "bytes.Cut", "strings.Cut":
 		if res == 0 || res == 1 {
+			add(le(r, s.lenOf(a[0])))
+		}
+	case "bytes.CutPrefix", "strings.CutPrefix", "bytes.CutSuffix", "strings.CutSuffix", "bytes.TrimPrefix", "strings.TrimPrefix", "bytes.TrimSuffix", "strings.TrimSuffix", "bytes.TrimRight", "strings.TrimRight", "strings.Trim", "bytes.TrimLeftFunc", "bytes.TrimRightFunc", "strings.TrimLeftFunc", "strings.TrimRightFunc":
+		if res <= 0 {
 			add(le(r, s.lenOf(a[0])))
 		}
 	}
@@ -401,6 +405,42 @@ func (s *Fn) condFacts(cond ssa.Value, val bool) (fs []Lin, dq []Lin) {
 		if !ok || !val {
 			return
 		}
+		// contracts of the standard cutters: found => the pieces and the separator make up the input
+		comp := func(i int) (Lin, bool) {
+			for _, ref := range *call.Referrers() {
+				if ex, ok := ref.(*ssa.Extract); ok && ex.Index == i {
+					return s.lenOf(ex), true
+				}
+			}
+			return Lin{}, false
+		}
+		switch calleeName(call) {
+		case "bytes.Cut", "strings.Cut":
+			if c.Index == 2 {
+				whole := s.lenOf(call.Call.Args[0])
+				sum := s.lenOf(call.Call.Args[1])
+				n := 0
+				for i := 0; i < 2; i++ {
+					if l, ok := comp(i); ok {
+						sum = sum.add(l, 1)
+						n++
+					}
+				}
+				if n == 2 {
+					fs = append(fs, le(sum, whole), le(whole, sum))
+				} else {
+					fs = append(fs, le(sum, whole)) // the pieces present are at most the rest
+				}
+			}
+		case "bytes.CutPrefix", "strings.CutPrefix", "bytes.CutSuffix", "strings.CutSuffix":
+			if c.Index == 1 {
+				if l, ok := comp(0); ok {
+					whole := s.lenOf(call.Call.Args[0])
+					sum := s.lenOf(call.Call.Args[1]).add(l, 1)
+					fs = append(fs, le(sum, whole), le(whole, sum))
+				}
+			}
+		}
 		if f := call.Call.StaticCallee(); f != nil && s.e.inMod(f) {
 			if sum := s.e.sums[f]; sum != nil && len(sum.truePost) > 0 {
 				env := s.callEnvAt(call, func(i int) Lin {
@@ -452,6 +492,20 @@ func (s *Fn) boundsOf(in ssa.Instruction) []Lin {
 			return f
 		}
 		var out []Lin
+		if b, ok := v.Call.Value.(*ssa.Builtin); ok && (b.Name() == "min" || b.Name() == "max") && isInt(v.Type()) {
+			if bits, uns := intWidth(v.Type()); bits == 64 && !uns {
+				r := s.canon(v)
+				for _, a := range v.Call.Args {
+					if b.Name() == "min" {
+						out = append(out, le(r, s.canon(a)))
+					} else {
+						out = append(out, le(s.canon(a), r))
+					}
+				}
+			}
+			s.callF[in] = out
+			return out
+		}
 		switch {
 		case isInt(v.Type()):
 			t := s.canon(v)
@@ -651,12 +705,30 @@ func (s *Fn) entailsD(fs, dq []Lin, goal Lin, depth int) bool {
 				return true
 			}
 		case *ssa.Call:
+			if b, ok := x.Call.Value.(*ssa.Builtin); ok && (b.Name() == "min" || b.Name() == "max") && isInt(x.Type()) && len(x.Call.Args) <= 3 {
+				// the result is one of the arguments
+				tried++
+				okAll := true
+				r := term(ssa.Value(x))
+				for _, a := range x.Call.Args {
+					av := s.canon(a)
+					nf := append(append([]Lin{}, fs...), le(r, av), le(av, r))
+					if !s.entailsD(nf, dq, goal, depth+1) {
+						okAll = false
+						break
+					}
+				}
+				if okAll {
+					return true
+				}
+				continue
+			}
 			f := x.Call.StaticCallee()
 			if f == nil || !s.e.inMod(f) || x == s.noSplit {
 				continue
 			}
 			cs := s.e.returnCases(f)
-			if cs == nil {
+			if cs == nil || f.Signature.Results().Len() != 1 {
 				continue
 			}
 			tried++
@@ -681,6 +753,47 @@ func (s *Fn) entailsD(fs, dq []Lin, goal Lin, depth int) bool {
 			if okAll {
 				return true
 			}
+		case *ssa.Extract:
+			// a component of a module function's tuple result: split over the callee's return cases, binding every
+			// extracted component
+			call, ok := x.Tuple.(*ssa.Call)
+			if !ok || call == s.noSplit {
+				continue
+			}
+			f := call.Call.StaticCallee()
+			if f == nil || !s.e.inMod(f) {
+				continue
+			}
+			cs := s.e.returnCases(f)
+			if cs == nil || f.Signature.Results().Len() < 2 {
+				continue
+			}
+			tried++
+			okAll := true
+			for _, rc := range cs {
+				nf := append(append([]Lin{}, fs...), s.instantiate(call, rc.facts)...)
+				for _, ref := range *call.Referrers() {
+					ex, ok := ref.(*ssa.Extract)
+					if !ok || ex.Index >= len(rc.rets) || rc.rets[ex.Index] == nil {
+						continue
+					}
+					var a Lin
+					if isInt(ex.Type()) {
+						a = term(ssa.Value(ex))
+					} else {
+						a = term(lenKey{ex})
+					}
+					b := s.instantiate(call, []Lin{*rc.rets[ex.Index]})[0]
+					nf = append(nf, le(a, b), le(b, a))
+				}
+				if !s.entailsD(nf, dq, goal, depth+1) {
+					okAll = false
+					break
+				}
+			}
+			if okAll {
+				return true
+			}
 		}
 		if tried > 6 {
 			break
@@ -693,6 +806,7 @@ func (s *Fn) entailsD(fs, dq []Lin, goal Lin, depth int) bool {
 
 type retCase struct {
 	facts     []Lin
+	rets      []*Lin // per result: int value or len of slice/string result (nil: other type)
 	ret       *Lin  // int value or len of slice result (single result only)
 	boolConst *bool // for bool results
 	trueFacts []Lin // for bool results: facts implied by the returned condition being true
@@ -703,7 +817,7 @@ func (e *Engine) returnCases(f *ssa.Function) []retCase {
 		return c
 	}
 	e.cases[f] = nil
-	if len(f.Blocks) > 16 || f.Signature.Results().Len() != 1 {
+	if len(f.Blocks) > 16 || f.Signature.Results().Len() < 1 {
 		return nil
 	}
 	for _, b := range f.Blocks {
@@ -722,6 +836,18 @@ func (e *Engine) returnCases(f *ssa.Function) []retCase {
 		}
 		fs, _ := fn.factsAt(b, len(b.Instrs))
 		rc := retCase{}
+		for _, rv := range r.Results {
+			switch {
+			case isInt(rv.Type()):
+				l := fn.canon(rv)
+				rc.rets = append(rc.rets, &l)
+			case isSliceOrStr(rv.Type()):
+				l := fn.lenOf(rv)
+				rc.rets = append(rc.rets, &l)
+			default:
+				rc.rets = append(rc.rets, nil)
+			}
+		}
 		v := r.Results[0]
 		switch {
 		case isInt(v.Type()):
